@@ -340,7 +340,7 @@ def run(ctx):
                 ctl2[i]["out"] = [e["out"][1], e["out"][0]] + e["out"][2:]
         if ctl and ctl2:
             break
-    if ctl is None or ctl2 is None:
+    if (ctl is None or ctl2 is None) and not ctx.violations:
         raise Undecided("no accepted trace with a successful Search and a two-entry iteration: the driver is not exercising the engines")
     for name, c in (("search reply", ctl), ("iteration order", ctl2)):
         if c is not None and not ctx.validate_traces("MemIndexPropTrace", "MemIndexPropTrace.cfg", [c]):
